@@ -2,8 +2,10 @@
    Model: Model/C01.v (one blob, any number of writers, the event loop's FIFO ready queue, the executor).
    All theorems hold for EVERY hash function H, every blob name h, both blob kinds (file / in-memory buffer),
    with or without completion callback, and every list of operations
-   (SetLength / Open / Write / CloseW / CloseBlob / Tick / Drain / IoDone), i.e. every chunking, every number
-   of writers, every interleaving, every placement of loop iterations and executor completions. *)
+   (SetLength / Open / Write / CloseW / CloseBlob / Tick / Drain / IoDone / Read / Delete), i.e. every chunking,
+   every number of writers, every interleaving, every placement of loop iterations and executor completions, and
+   any number of re-downloads of the same object after it was read out (BlobBuffer) or deleted.
+   [core_ops] = no Read/Delete in the list; [no_delete] = no Delete in the list. *)
 From Coq Require Import NArith ZArith List Bool.
 From LV Require Import Lib.Bytes Model.C01 Proofs.C01.
 Import ListNotations.
@@ -22,11 +24,11 @@ Theorem C01_only_matching_bytes_verified : forall H h kd cb ops,
 Proof. exact only_matching. Qed.
 Print Assumptions C01_only_matching_bytes_verified.
 
-(* 1b. The result of any writer's future, in any reachable state, is a complete correct copy. *)
+(* 1b. The result of any writer's future, in any reachable state, is a complete correct copy of admissible size
+       (that its size was the length accepted at that moment is theorem 2). *)
 Theorem C01_writer_result_is_correct_copy : forall H h kd cb ops i w b,
   nth_error (s_ws (run H h kd cb ops init)) i = Some w -> w_fut w = FOk b ->
-  exists L, s_len (run H h kd cb ops init) = Some L /\ N.of_nat (length b) = L
-            /\ 0 < L <= MAX_BLOB_SIZE /\ H b = h.
+  0 < N.of_nat (length b) <= MAX_BLOB_SIZE /\ H b = h.
 Proof. exact writer_result_good. Qed.
 Print Assumptions C01_writer_result_is_correct_copy.
 
@@ -48,21 +50,18 @@ Theorem C01_writer_result_exact : forall H h L w d,
 Proof. exact writer_write_exact. Qed.
 Print Assumptions C01_writer_result_exact.
 
-(* 2a. History level, for every operation list and every writer ever created: let t be the concatenation, in
-       order, of the chunks of those Write calls on this writer that got past write()'s guards (result ROk or
-       InvalidStateError, i.e. not refused with OSError) - [written] below.  Then t is exactly what the writer has
-       hashed, and the state of its future is a function of t: result b => b = t, |t| = accepted length, H t = h;
-       InvalidDataError => |t| > length; InvalidBlobHashError => |t| = length and H t <> h; still pending =>
-       |t| < length.  (A cancelled future - close_handle / blob.close / another writer won - carries no claim.) *)
+(* 2a. History level, for every operation list (resets included) and every writer ever created: let t be the
+       concatenation, in order, of the chunks of those Write calls on this writer that got past write()'s guards
+       (result ROk or InvalidStateError, i.e. not refused with OSError) - [written].  Then t is exactly what the
+       writer has hashed, and: result b => b = t, H t = h, 0 < |t| <= 2^21; InvalidBlobHashError => H t <> h;
+       still pending => |t| < the accepted length. *)
 Theorem C01_writer_result_exact_history : forall H h kd cb ops i w,
   nth_error (s_ws (run H h kd cb ops init)) i = Some w ->
   let t := written i ops (results H h kd cb ops init) in
-  let len := s_len (run H h kd cb ops init) in
   w_seen w = t
-  /\ (forall b, w_fut w = FOk b -> b = t /\ exists L, len = Some L /\ N.of_nat (length t) = L /\ H t = h)
-  /\ (w_fut w = FErrLen -> exists L, len = Some L /\ L < N.of_nat (length t))
-  /\ (w_fut w = FErrHash -> exists L, len = Some L /\ N.of_nat (length t) = L /\ H t <> h)
-  /\ (w_fut w = FPending -> forall L, len = Some L -> L <> 0 -> N.of_nat (length t) < L).
+  /\ (forall b, w_fut w = FOk b -> b = t /\ H t = h /\ 0 < N.of_nat (length t) <= MAX_BLOB_SIZE)
+  /\ (w_fut w = FErrHash -> H t <> h)
+  /\ (w_fut w = FPending -> forall L, s_len (run H h kd cb ops init) = Some L -> L <> 0 -> N.of_nat (length t) < L).
 Proof. exact writer_history. Qed.
 Print Assumptions C01_writer_result_exact_history.
 
@@ -91,29 +90,31 @@ Theorem C01_chunk_writes_are_feed : forall H h kd cb i cs s w,
 Proof. exact run_writes_feed. Qed.
 Print Assumptions C01_chunk_writes_are_feed.
 
-(* 4. First complete correct copy wins.  After ANY history, if a live writer receives the chunk that completes
-      a correct copy, then (a) whatever operations follow, as soon as the ready queue is empty and the executor
+(* 4. First complete correct copy wins - on a fresh object and on every later delivery to the same object: after
+      ANY history (reads and deletes included), if a live writer receives the chunk that completes a correct copy,
+      then (a) whatever operations other than a reset follow, as soon as the ready queue is empty and the executor
       has no job, the blob is verified and the store holds bytes of the accepted length hashing to the name;
-      (b) drain; io; drain reaches such a state, with writing cleared and the completion callback fired exactly
-      once (if one was given). *)
+      (b) drain; io; drain reaches such a state, with writing cleared, and - if nothing was being saved before -
+      the completion callback called exactly once more than the calls already made or already queued. *)
 Theorem C01_first_complete_copy_wins : forall H h kd cb ops i w d L,
   let s := run H h kd cb ops init in
   nth_error (s_ws s) i = Some w -> w_open w = true -> w_fut w = FPending -> s_len s = Some L -> 0 < L ->
   N.of_nat (length (w_buf w ++ d)) = L -> H (w_buf w ++ d) = h ->
   let s1 := fst (step H h kd cb (Write i d) s) in
-  (forall ops', let s' := run H h kd cb ops' s1 in s_q s' = [] -> s_io s' = None ->
+  (forall ops', core_ops ops' -> let s' := run H h kd cb ops' s1 in s_q s' = [] -> s_io s' = None ->
      s_verified s' = true /\ exists b, s_store s' = Some b /\ H b = h /\ N.of_nat (length b) = L)
   /\ (let s4 := run H h kd cb [Drain; IoDone; Drain] s1 in
       s_q s4 = [] /\ s_verified s4 = true /\ s_writing s4 = false
       /\ (exists b, s_store s4 = Some b /\ H b = h /\ N.of_nat (length b) = L)
-      /\ s_completed s4 = if cb then 1%nat else 0%nat).
+      /\ (s_verified s = false -> s_writing s = false ->
+          s_completed s4 = (s_completed s + cnt is_cp (s_q s) + if cb then 1 else 0)%nat)).
 Proof. exact first_copy_wins. Qed.
 Print Assumptions C01_first_complete_copy_wins.
 
 (* 4a. "... with exactly those bytes stored".  If, at the moment the live writer completes its correct copy t,
        the blob is neither verified nor being saved and every writer_finished_callback still waiting in the ready
        queue belongs to a writer that finished WITHOUT a result ([loser]) - i.e. this copy is the first - then
-       whatever happens afterwards nothing but t is ever in the store.  (Without "first", theorem 4 still gives
+       whatever happens afterwards (until the object is reset) nothing but t is ever in the store.  (Without "first", theorem 4 still gives
        bytes of the same length and the same hash: equal to t unless H collides.) *)
 Theorem C01_first_complete_copy_exact_bytes : forall H h kd cb ops i w d L,
   let s := run H h kd cb ops init in
@@ -122,7 +123,7 @@ Theorem C01_first_complete_copy_exact_bytes : forall H h kd cb ops i w d L,
   s_verified s = false -> s_writing s = false ->
   (forall j, In (QWfc j) (s_q s) -> loser s j) ->
   let s1 := fst (step H h kd cb (Write i d) s) in
-  forall ops' x, s_store (run H h kd cb ops' s1) = Some x -> x = w_buf w ++ d.
+  forall ops' x, core_ops ops' -> s_store (run H h kd cb ops' s1) = Some x -> x = w_buf w ++ d.
 Proof. exact first_copy_exact. Qed.
 Print Assumptions C01_first_complete_copy_exact_bytes.
 
@@ -141,8 +142,8 @@ Theorem C01_first_complete_copy_closes_others : forall H h kd cb ops i w d L,
 Proof. exact first_copy_closes_others. Qed.
 Print Assumptions C01_first_complete_copy_closes_others.
 
-(* 4c. The completion callback never fires twice, in any history. *)
-Theorem C01_completed_at_most_once : forall H h kd cb ops,
+(* 4c. The completion callback never fires twice on an object that is not reset in between. *)
+Theorem C01_completed_at_most_once : forall H h kd cb ops, core_ops ops ->
   (s_completed (run H h kd cb ops init) <= 1)%nat.
 Proof. exact completed_at_most_once. Qed.
 Print Assumptions C01_completed_at_most_once.
@@ -152,11 +153,11 @@ Theorem C01_drain_quiescent : forall kd cb s, s_q (drain kd cb s) = [].
 Proof. exact (drain_quiescent (fun b => b) nil). Qed.
 Print Assumptions C01_drain_quiescent.
 
-(* 5. An accepted length is at most 2^21 and never changes afterwards; a length outside 0..2^21 is refused in
-      every state; a length inside is accepted when none was accepted before. *)
+(* 5. An accepted length is at most 2^21 and is changed by nothing but delete(); a length outside 0..2^21 is
+      refused in every state; a length inside is accepted when none was accepted before. *)
 Theorem C01_length_once_bounded : forall H h kd cb ops1 ops2 L,
   s_len (run H h kd cb ops1 init) = Some L ->
-  L <= MAX_BLOB_SIZE /\ s_len (run H h kd cb (ops1 ++ ops2) init) = Some L.
+  L <= MAX_BLOB_SIZE /\ (no_delete ops2 -> s_len (run H h kd cb (ops1 ++ ops2) init) = Some L).
 Proof. exact length_once_bounded. Qed.
 Print Assumptions C01_length_once_bounded.
 
@@ -190,6 +191,19 @@ Example C01_ex_wins :
   let s := run Hid nm KFile true (ex_ops ++ [Write 1 [Byte.x03]; Drain; IoDone; Drain]) init in
   (s_verified s, s_store s, s_completed s, map w_open (s_ws s), map w_fut (s_ws s), s_q s)
   = (true, Some nm, 1%nat, [false; false], [FErrHash; FOk nm], []).
+Proof. vm_compute. reflexivity. Qed.
+
+(* the same object again: a BlobBuffer is read out (consumed), a second peer delivers, verified again, second call;
+   a BlobFile is deleted, the length announced again, delivered again *)
+Example C01_ex_redownload_buffer :
+  let s := run Hid nm KBuffer true [SetLength 3; Open 1; Write 0 nm; Drain; IoDone; Drain; Read; Open 2;
+                                     Write 1 [Byte.x01; Byte.x02]; Write 1 [Byte.x03]; Drain; IoDone; Drain] init in
+  (s_verified s, s_store s, s_completed s, map w_fut (s_ws s)) = (true, Some nm, 2%nat, [FOk nm; FOk nm]).
+Proof. vm_compute. reflexivity. Qed.
+Example C01_ex_redownload_file :
+  let s := run Hid nm KFile true [SetLength 3; Open 1; Write 0 nm; Drain; IoDone; Drain; Delete; SetLength 3; Open 1;
+                                   Write 1 nm; Drain; IoDone; Drain] init in
+  (s_verified s, s_store s, s_len s, s_completed s) = (true, Some nm, Some 3, 2%nat).
 Proof. vm_compute. reflexivity. Qed.
 
 (* over-long by one byte: InvalidDataError, nothing stored, nothing verified *)
